@@ -235,3 +235,116 @@ Example C06_multi_guard_satisfiable :
   /\ rt_dict ex_tree [45; 62]%N = Ret (norm_tree false ex_tree)
   /\ sep_free [45; 62]%N k3_tree = false.
 Proof. vm_compute. repeat split. Qed.
+
+(* ---------------------------------------------------------------------------------------------- *)
+(* frames, exactly *)
+
+(* (1) nulls: the re-imported tree is the (public part of the) source tree with exactly the null-valued
+   attributes removed.  In the frame model a missing cell and a None cell are the same null, which is
+   what pandas / polars hand to the constructor. *)
+Theorem C06_dataframe_roundtrip_nulls : forall sp t,
+  valid_tree t = true -> sep_free sp t = true -> frame_safe t = true ->
+  res_map sort_tree (rt_frame t sp) = Ret (strip_nulls (norm_tree false t)).
+Proof. exact rt_frame_nulls. Qed.
+Print Assumptions C06_dataframe_roundtrip_nulls.
+
+Theorem C06_polars_roundtrip_nulls : forall sp t,
+  valid_tree t = true -> sep_free sp t = true -> frame_safe t = true ->
+  res_map sort_tree (bind (tree_to_polars t sp [] full_opts) (fun d => polars_to_tree d sp))
+  = Ret (strip_nulls (norm_tree false t)).
+Proof. exact rt_frame_nulls. Qed.
+Print Assumptions C06_polars_roundtrip_nulls.
+
+Example C06_nulls_nonvacuous :
+  strip_nulls (norm_tree false ex_tree) <> norm_tree false ex_tree
+  /\ res_map sort_tree (rt_frame ex_tree [47]%N) = Ret (strip_nulls (norm_tree false ex_tree)).
+Proof. split; [vm_compute; discriminate|vm_compute; reflexivity]. Qed.
+
+(* (2) attribute order.  The columns of a frame are the keys of its records in order of FIRST
+   appearance over the pre-order traversal ... *)
+Theorem C06_frame_columns_first_seen : forall rows,
+  frame_columns rows = first_seen [] (map fst (concat rows)).
+Proof. exact frame_columns_first_seen. Qed.
+Print Assumptions C06_frame_columns_first_seen.
+
+(* ... and after the round trip every node carries, in COLUMN order, exactly its non-null cells of the
+   attribute columns: no sorting, the exact tree *)
+Theorem C06_dataframe_attr_order : forall sp t,
+  valid_tree t = true -> sep_free sp t = true -> frame_safe t = true ->
+  rt_frame t sp = Ret (retree (reimported_attrs sp t) t).
+Proof. exact rt_frame_order. Qed.
+Print Assumptions C06_dataframe_attr_order.
+
+(* the column order is NOT the per-node key order: b's `zz` is seen before c's `aa` *)
+Definition order_tree : tree :=
+  T None [97]%N [] [T None [98]%N [([122; 122]%N, VInt 1)] [];
+                    T None [99]%N [([97; 97]%N, VInt 2); ([122; 122]%N, VInt 3)] []].
+Example C06_attr_order_nonvacuous :
+  valid_tree order_tree = true /\ sep_free [47]%N order_tree = true /\ frame_safe order_tree = true
+  /\ export_columns [47]%N order_tree = [s_path; s_name; [122; 122]%N; [97; 97]%N]
+  /\ rt_frame order_tree [47]%N
+     = Ret (T None [97]%N [] [T None [98]%N [([122; 122]%N, VInt 1)] [];
+                              T None [99]%N [([122; 122]%N, VInt 3); ([97; 97]%N, VInt 2)] []]).
+Proof. vm_compute. repeat split. Qed.
+
+(* ---------------------------------------------------------------------------------------------- *)
+(* (3) partial exports.  The exported records are exactly those of the selected nodes
+   (C06_dict_records_node_tree_multi, C06_dataframe_rows, C06_nested_mirror).  Re-import: *)
+
+(* max_depth only, from the root: the selected set is ancestor-closed, and the constructor returns the
+   tree induced on it -- the source cut below max_depth *)
+Theorem C06_dict_roundtrip_max_depth : forall sp m t,
+  valid_tree t = true -> sep_free sp t = true ->
+  bind (tree_to_dict t sp [] (depth_opts m)) (fun d => dict_to_tree d sp)
+  = Ret (norm_tree false (prune m t)).
+Proof. exact rt_dict_depth. Qed.
+Print Assumptions C06_dict_roundtrip_max_depth.
+
+Example C06_max_depth_nonvacuous :
+  tsize (prune 1 ex_tree) = 3 /\ tsize ex_tree = 6
+  /\ bind (tree_to_dict ex_tree [47]%N [] (depth_opts 1)) (fun d => dict_to_tree d [47]%N)
+     = Ret (norm_tree false (prune 1 ex_tree)).
+Proof. vm_compute. repeat split. Qed.
+
+(* otherwise the selected set is not ancestor-closed and dict_to_tree re-creates the missing ancestors
+   as BARE nodes (no attributes); shapes on the model, replayed on /repo (same trees):
+   skip_depth=2 -> a[b[d, e[g]]] all bare, c gone;  leaf_only -> a[b[d, e[g]], c(w=None)], a b e bare;
+   inner start b -> a bare, below it the subtree of b with its attributes *)
+Definition reimport (o : opts) (p : pos) : res tree :=
+  bind (tree_to_dict ex_tree [47]%N p o) (fun d => dict_to_tree d [47]%N).
+Definition bare (n : N) (ks : list tree) : tree := T None [n] [] ks.
+Example C06_partial_reimport_shapes :
+  reimport (Opts s_name [] s_path [] true 0 2 false) []
+    = Ret (bare 97 [bare 98 [bare 100 []; bare 101 [bare 103 []]]])
+  /\ reimport (Opts s_name [] s_path [] true 0 0 true) []
+    = Ret (bare 97 [bare 98 [bare 100 []; bare 101 [bare 103 []]]; T None [99]%N [([119]%N, VNone)] []])
+  /\ reimport full_opts [0]
+    = Ret (bare 97 [T None [98]%N [([97; 103; 101]%N, VInt 65)] [bare 100 []; bare 101 [bare 103 []]]]).
+Proof. vm_compute. repeat split. Qed.
+
+(* ---------------------------------------------------------------------------------------------- *)
+(* (4) umbrella: every observation of a case -- four exports from any start node under any options,
+   four round trips -- satisfies the property decision on the model *)
+Theorem C06_all_formats : forall sp root p o,
+  subtree_at root p <> None -> sep_free sp root = true ->
+  prop_C06_all root sp p o
+    (res_map canon_dict (tree_to_dict root sp p o)) (res_map canon_nested (tree_to_nested_dict root p o))
+    (res_map canon_rows (tree_to_dataframe root sp p o)) (res_map canon_rows (tree_to_polars root sp p o))
+    (rt_dict root sp) (rt_nested root) (rt_frame root sp) (rt_frame root sp) = true.
+Proof. exact prop_all_model. Qed.
+Print Assumptions C06_all_formats.
+
+(* one-character separators: no guard at all (prop_rt_path carries the substring guard itself) *)
+Theorem C06_all_formats_onechar : forall c root p o,
+  subtree_at root p <> None ->
+  prop_C06_all root [c] p o
+    (res_map canon_dict (tree_to_dict root [c] p o)) (res_map canon_nested (tree_to_nested_dict root p o))
+    (res_map canon_rows (tree_to_dataframe root [c] p o)) (res_map canon_rows (tree_to_polars root [c] p o))
+    (rt_dict root [c]) (rt_nested root) (rt_frame root [c]) (rt_frame root [c]) = true.
+Proof. exact prop_all_model_1. Qed.
+Print Assumptions C06_all_formats_onechar.
+
+Example C06_all_formats_nonvacuous :
+  subtree_at ex_tree [0; 1] <> None /\ sep_free [45; 62]%N ex_tree = true /\ valid_tree ex_tree = true
+  /\ frame_safe ex_tree = true /\ sep_safe [45; 62]%N ex_tree = true.
+Proof. vm_compute. repeat split. discriminate. Qed.
